@@ -399,7 +399,7 @@ def derived_alphabet(ast, extra='x', newline=False, slash=False):
     return al
 
 
-def search_den(asts, configs, maxlen=4, nproc=16, use_filter=True, hidden='all', extra='x'):
+def search_den(asts, configs, maxlen=4, nproc=16, use_filter=True, hidden='all', extra='x', extra_flags=0):
     """asts: wire strings of pattern sequences; configs: list of (ci, dot, newline_in_alphabet).
     hidden: 'all' | 'only' | 'none' - which names to evaluate when dot is off.
     The spec gives a lower and an upper bound (they differ only on names with a protected leading dot).
@@ -431,7 +431,7 @@ def search_den(asts, configs, maxlen=4, nproc=16, use_filter=True, hidden='all',
         lbits = outs[2 * k + 1].split(' ')[1] if names else ''
         pattern = dec(pw)
         fl_ = Fm.FORCEUNIX | (Fm.IGNORECASE if ci else Fm.CASE) | (Fm.DOTMATCH if dot else 0) | \
-            (Fm.EXTMATCH if 'x' in ast else 0)
+            (Fm.EXTMATCH if 'x' in ast else 0) | extra_flags
         try:
             cm = Fm.compile(pattern, flags=fl_)
             got = [cm.match(n) for n in names]
@@ -496,7 +496,7 @@ def search_pden(pps, configs, maxlen=5, nproc=16, root_names=False, nl_suffix=Fa
         lbits = outs[2 * k + 1].split(' ')[1] if names else ''
         pattern = dec(pw)
         fl_ = Gm.FORCEUNIX | (Gm.IGNORECASE if cf['ci'] else Gm.CASE) | (Gm.DOTGLOB if cf['dot'] else 0) | \
-            (Gm.EXTGLOB if 'x' in pp else 0) | (Gm.GLOBSTAR if cf['gs'] else 0) | (Gm.GLOBSTARLONG if cf['gl'] else 0) | \
+            (Gm.EXTGLOB if 'x' in pp else 0) | (Gm.GLOBSTAR if cf['gs'] and not cf.get('noG') else 0) | (Gm.GLOBSTARLONG if cf['gl'] else 0) | \
             (Gm.MATCHBASE if cf['mb'] else 0)
         try:
             cm = Gm.compile(pattern, flags=fl_)
@@ -950,14 +950,18 @@ def corr_realpath(rng, specs, ncases=150, nproc=8):
                                 if rng.random() < 0.15:
                                     tabl[f_] = None
                                     continue
-                                cuts = [i for i, c_ in enumerate(f_) if c_ == '/'] + [0, len(f_), max(0, len(f_) - 1)]
+                                # group borders at segment borders (a border inside a segment would make the code ask about
+                                # `x/.`-style paths, which the table file system of the model does not normalise)
+                                sl = [i for i, c_ in enumerate(f_) if c_ == '/']
+                                cuts = sorted(set([0, len(f_), max(0, len(f_) - 1)] + sl + [i + 1 for i in sl]))
                                 spans = []
                                 for _g in range(rng.randint(0, 3)):
                                     if rng.random() < 0.15:
                                         spans.append(None)
                                         continue
-                                    a_, b_ = sorted((rng.choice(cuts) + rng.choice([0, 0, 1]), rng.choice(cuts) + rng.choice([0, 0, 1])))
-                                    a_, b_ = min(a_, len(f_)), min(b_, len(f_))
+                                    a_, b_ = sorted((rng.choice(cuts), rng.choice(cuts)))
+                                    if a_ == len(f_) - 1 and a_ not in sl and a_ - 1 not in sl and a_ != 0:
+                                        a_ = b_      # not a border: empty span instead
                                     spans.append((a_, b_))
                                 tabl[f_] = spans
                             lst.append((_FakePattern(tabl), tabl))
